@@ -182,7 +182,7 @@ func f16ToF32(h uint16) float32 {
 
 // ---- bit operations ---------------------------------------------------------
 
-func bitCount32(u uint32) int32   { return int32(bits.OnesCount32(u)) }
+func bitCount32(u uint32) int32    { return int32(bits.OnesCount32(u)) }
 func bitReverse32(u uint32) uint32 { return bits.Reverse32(u) }
 
 // findLSB32: bit number of the least significant 1 bit; -1 for 0.
